@@ -183,12 +183,16 @@ def coerce_variable_values(
             coerced[var_name] = coerced_value
         else:
 
+            reported: list[GraphQLError] = []
+
             def on_input_value_error(
                 error: GraphQLError,
                 path: list[str | int],
                 var_name: str = var_name,
                 var_def_node: VariableDefinitionNode = var_def_node,
+                reported: list[GraphQLError] = reported,
             ) -> None:
+                reported.append(error)
                 on_error(
                     GraphQLError(
                         f"Variable '${var_name}' has invalid value"
@@ -201,6 +205,15 @@ def coerce_variable_values(
             validate_input_value(
                 value, var_type, on_input_value_error, hide_suggestions
             )
+            if not reported:
+                # The value could not be coerced, so it must not be silently
+                # treated as not provided, even if it cannot be explained (e.g.
+                # an iterator that has been used up by the failed coercion).
+                on_error(
+                    GraphQLError(
+                        f"Variable '${var_name}' has invalid value.", var_def_node
+                    )
+                )
 
     return VariableValues(sources, coerced)
 
